@@ -17,14 +17,15 @@ def main():
     for f in sorted((VERIF / "findings").glob("C*.json")):
         d = json.loads(f.read_text())
         for x in d.get("fixed", []):
-            m = re.match(r"fixed: property=(C\d+) (\w+) ", x)
+            m = re.match(r"fixed: property=(C\d+) ((?:[0-9a-f]{7,40} )+)", x)
             if not m:
                 bad.append(f"{f.name}: malformed fixed entry {x[:60]!r}")
                 continue
-            hits = [h for h in full if h.startswith(m.group(2))]
-            if not hits:
-                bad.append(f"{f.name}: fixed entry names {m.group(2)}, not a commit of /repo")
-            used.update(hits)
+            for hh in m.group(2).split():          # one entry may name several commits (a repair landed in steps)
+                hits = [h for h in full if h.startswith(hh)]
+                if not hits:
+                    bad.append(f"{f.name}: fixed entry names {hh}, not a commit of /repo")
+                used.update(hits)
         for x in d.get("findings", []):
             for k in ("id", "what", "status"):
                 if k not in x:
